@@ -102,6 +102,48 @@ def raw_flow(ctx, pw, cred, context, idu, ids, ksf, rejections, nofile):
     ctx.expect(r.ok, "in-memory flow succeeds")
 
 
+def primitives(ctx, n):
+    """the primitive layer of the model against the crates it mirrors (sha2, hmac, hkdf, elliptic-curve hash2curve,
+    curve25519-dalek, voprf): byte-exact on length sweeps across every padding / block boundary"""
+    ctx.nontrivial = True
+    L, rnd = ctx.L, ctx.rnd
+    blk = 64 if L.oprf == "P256" else 128
+    lens = sorted(set(list(range(0, 20)) + [blk - 18, blk - 17, blk - 10, blk - 9, blk - 8, blk - 1, blk, blk + 1, 2 * blk - 17, 2 * blk - 9, 2 * blk,
+                                             2 * blk + 1, 255, 256, 257, 1000] + [rnd.randrange(0, 700) for _ in range(n)]))
+    for l in lens:
+        m = ctx.tape(l)
+        r = ctx.call("p_hash", m)
+        ctx.expect(r.ok and len(r.b(0)) == L.Nh, "hash of %d bytes" % l)
+        k = ctx.tape(rnd.choice([0, 1, L.Nh, blk - 1, blk, blk + 1, 2 * blk + 3]))
+        r = ctx.call("p_hmac", k, m)
+        ctx.expect(r.ok and len(r.b(0)) == L.Nh, "hmac with a %d-byte key over %d bytes" % (len(k), l))
+    for out in sorted(set([1, 2, L.Nh - 1, L.Nh, L.Nh + 1, 2 * L.Nh, 3 * L.Nh + 5, 255 * L.Nh, 255 * L.Nh + 1] + [rnd.randrange(1, 600) for _ in range(n // 2)])):
+        prk = ctx.tape(rnd.choice([L.Nh, L.Nh + 7, L.Nh - 1]))
+        r = ctx.call("p_expand", prk, ctx.tape(rnd.randrange(0, 90)), out)
+        if len(prk) >= L.Nh and out <= 255 * L.Nh:
+            ctx.expect(r.ok and len(r.b(0)) == out, "expand to %d bytes" % out)
+        else:
+            ctx.expect(not r.ok, "expand refuses a short PRK / more than 255 blocks")
+    elems, scalars = [], []
+    for _ in range(n // 2 + 4):
+        msg, dst = ctx.tape(rnd.randrange(0, 300)), ctx.tape(rnd.randrange(1, 200))
+        r = ctx.call("p_h2g", msg, dst)
+        if ctx.expect(r.ok and len(r.b(0)) == L.Noe, "hash_to_group"):
+            elems.append(r.b(0))
+        r = ctx.call("p_h2s", msg, dst)
+        if ctx.expect(r.ok and len(r.b(0)) == L.Nok, "hash_to_scalar"):
+            if any(r.b(0)):
+                scalars.append(r.b(0))
+    for e in elems[:6]:
+        for s_ in scalars[:4]:
+            r = ctx.call("p_smul", e, s_)
+            ctx.expect(r.ok, "scalar multiplication")
+            inv = ctx.call("p_sinv", s_)
+            if r.ok and inv.ok:
+                back = ctx.call("p_smul", r.b(0), inv.b(0))
+                ctx.expect(back.ok and back.b(0) == e, "multiplying by a scalar and by its inverse gives the element back")
+
+
 def cases(tier, seed):
     rnd = random.Random(seed)
     out = []
@@ -113,6 +155,9 @@ def cases(tier, seed):
             out.append(dict(script=raw_flow, suite=s, seed=seed * 100000 + si * 100 + k, mode="raw",
                             params=dict(pw=pw, cred=cred, context=c, idu=a, ids=b, ksf=["~", "D", "R"][k % 3],
                                         rejections=(1 if k == 2 else 0), nofile=(k % 3 == 1))))
+    for oi, o in enumerate(OPRFS):
+        out.append(dict(script=primitives, suite=o + "/" + ["R255", "P256", "X25519", "P384"][oi], seed=seed * 100 + oi, mode="raw",
+                        params=dict(n=(24 if tier == "quick" else 200))))
     for i, d in enumerate(parse_vectors()):
         s = suite_of(d)
         if s:
